@@ -120,5 +120,33 @@ theorem one_row_per_iteration {tr : List String} {e : Ending} (hx : Exec Gen.sol
   have h := all_paths mD Gen.solveMainBody ⟨false, 0, false⟩ _ one_row_all hx
   simpa using h
 
+/-! ### what is returned comes from the final-result query -/
+
+def retInit : String :=
+  "ret:(x, rvec, obj, None, nsamples, control.nf, control.nx, nruns_so_far + 1, exit_info, diagnostic_info, x_eval_num, jac_eval_nums)"
+
+structure QF where
+  final : Nat
+  bad : Bool
+deriving DecidableEq, Repr
+
+/-- `final`: calls of `control.model.get_final_results()` so far (saturating at 2); `bad`: a `return` of a run that has a Controller
+    (the exit during the initialisation, the return after the main loop) without exactly one such call before it -/
+def mF : Mon QF := ⟨fun q a =>
+  if a == "final" then { q with final := min (q.final + 1) 2 }
+  else if a == retPlain || a == retInit then { q with bad := q.bad || q.final != 1 }
+  else q⟩
+
+theorem final_all : allReach mF Gen.solveMainBody ⟨0, false⟩ (fun q _ => !q.bad) = true := by decide +kernel
+
+/-- on every execution of solve_main, the two `return`s of a run that owns a Controller — the exit taken when the initialisation of
+    the interpolation set reports an exit, and the return after the main loop — are preceded by exactly one call of
+    `get_final_results` (the better of the saved point and the incumbent: `C17_final_better`); seeded change C04_11 returned the
+    incumbent directly from the first of them -/
+theorem returns_via_final_results {tr : List String} {e : Ending} (hx : Exec Gen.solveMainBody tr e) :
+    (mF.run ⟨0, false⟩ tr).bad = false := by
+  have h := all_paths mF Gen.solveMainBody ⟨0, false⟩ _ final_all hx
+  simpa using h
+
 end SolveMainPaths
 end Dfols
